@@ -1059,7 +1059,9 @@ class SVG:
         self._update_etree()
 
         for el in self.xpath("//processing-instruction()"):
-            el.getparent().remove(el)
+            # instructions before/after the root element have no parent; they are
+            # not part of what we serialise, so there is nothing to remove
+            _safe_remove(el)
 
         return self
 
